@@ -98,7 +98,7 @@ def ensure_mir(kind='lib'):
     """MIR text of the current working tree of /repo (regenerated whenever the tree changes)."""
     th = tree_hash()
     d = os.path.join(BUILD, 'mir', th)
-    out = os.path.join(d, kind + '.mir')
+    out = os.path.join(d, kind + '.s.mir')
     if os.path.exists(out) and os.path.getsize(out) > 1000:
         return out, th
     with Lock('cargo'):
@@ -106,7 +106,7 @@ def ensure_mir(kind='lib'):
             return out, th
         os.makedirs(d, exist_ok=True)
         t = time.time()
-        cmd = ['cargo', 'rustc', '--offline'] + MIR_KINDS[kind] + ['--', '-Zunpretty=mir', '-C', 'debug-assertions=off',
+        cmd = ['cargo', 'rustc', '--offline'] + MIR_KINDS[kind] + ['--', '-Zunpretty=mir', '-Zmir-include-spans=on', '-C', 'debug-assertions=off',
                                                                   '-C', 'overflow-checks=on', '--cfg', 'verif_nonce_%s_%d' % (th, int(time.time()))]
         p = subprocess.run(cmd, cwd=REPO, env=cargo_env(), capture_output=True, text=True)
         if p.returncode != 0 or len(p.stdout) < 1000:
@@ -309,12 +309,12 @@ class Ctx:
             log('KNOWN-FINDING: property=%s %s [%s]' % (self.pid, what, kh['key']))
         for v in self.violations:
             log('VIOLATION property=%s replay=%s' % (self.pid, v['path']))
+        for m in self.inconclusive[:20]:
+            log('INCONCLUSIVE property=%s %s' % (self.pid, m))
         if self.violations:
             exit_code = 1
         elif self.inconclusive:
             exit_code = 2
-            for m in self.inconclusive[:20]:
-                log('INCONCLUSIVE property=%s %s' % (self.pid, m))
         # evidence
         samples = []
         for r in results:
